@@ -10,6 +10,13 @@ import pipeline as P
 NOT_CARRIED = [
     "the numerical value of the form-factor closure error (<= 2.5 %) is a property of the quadratures "
     "(see C05/C06); C01_bound is proved for any row-sum bound r and the harness measures r on every scene",
+    "C01_model_balance (kept) asks 'pi*BRDF = rho(wall)' of ALL table indices; a table read beyond its end returns "
+    "0, so that hypothesis only admits reflectance 0 (C01_model_balance_forces_zero, cf. "
+    "C09_model_diffuse_everywhere_forces_zero). The statement that carries the balance clause on the executable "
+    "model is C01_model_balance_bounded (diffuse hypothesis on the in-range table entries + shape condition on "
+    "the tables) / C01_model_balance_vis (on the entries the model reads); non-vacuity with reflectances 1/2, 1/3 "
+    "and a hidden patch: Instances/NonVacuity.v. Directional (non-diffuse) BRDFs are covered by the per-leg form "
+    "C01_balance + C01_receiving_wall only",
 ]
 
 
